@@ -264,7 +264,23 @@ pub fn one_history(id: u64, seed: u64, max_ops: usize, big: bool) {
         }
         trace::rec(merge(isret, wstate(&w)));
     }
-    trace::rec(json!({"ev":"wcall","op":"drop","data":[]}));
-    let r = catch(move || drop(w));
+    // the writer is dropped either normally or while the thread unwinds from a panic that has nothing to do with the
+    // sink: the buffered data has to reach the sink in both cases (as with std's BufWriter)
+    let unwinding = rng.gen_range(0..4) == 0;
+    trace::rec(json!({"ev":"wcall","op":"drop","data":[],"unwinding":unwinding}));
+    let r = if unwinding {
+        let sentinel = "vh-unrelated-panic";
+        let r = catch(move || {
+            let _w = w;
+            std::panic::panic_any(sentinel);
+        });
+        match r {
+            Err(msg) if msg.contains(sentinel) => Ok(()),
+            Err(msg) => Err(msg),
+            Ok(()) => Ok(()),
+        }
+    } else {
+        catch(move || drop(w))
+    };
     trace::rec(json!({"ev":"wret","op":"drop","err":false,"panic":r.is_err(),"len":0,"cap":cap,"werr":false,"panicked":false}));
 }
